@@ -480,6 +480,20 @@ impl World {
                 self.apply(&json!({"a": "inbound", "c": c, "q": q}));
             }
             self.poll_all();
+            // usability: this fresh connection is the only one to the peer, every protocol has consumed its
+            // inbox, nothing was downgraded since: open_substream must be accepted (and is answered below)
+            let only = self.conns.iter().all(|(d, x)| *d == c || x.0 != p || x.1 == "dead");
+            let clean = only && self.blocked.is_empty() && (0..NQ).all(|q| self.inbox_empty(q));
+            for q in self.live_protocols() {
+                self.apply(&json!({"a": "open", "q": q, "p": p, "probe": clean}));
+            }
+            while !self.panicked && self.apply(&json!({"a": "cmd", "c": c})) && self.last_ret()["k"] == "open" {}
+            if self.st(c) == "live" {
+                for (_, id) in self.h.pending_opens(c) {
+                    self.apply(&json!({"a": "reply", "c": c, "id": id, "ok": false}));
+                }
+            }
+            self.poll_all();
             self.close_and_drop(c);
             self.poll_all();
         }
